@@ -3,6 +3,7 @@ package harness
 import (
 	"encoding/json"
 	"errors"
+	"flag"
 	"fmt"
 	"hash/fnv"
 	"os"
@@ -503,4 +504,23 @@ func Infra(err error) error {
 // the same generator and oracle through rapid.MakeFuzz).
 func RunOnce[C any](r *Runner, c *C, check func(*Env, *C) error) error {
 	return exec1(r, c, check)
+}
+
+// ScaleChecks runs f with -rapid.checks scaled by num/den (at least 1): sub-runs
+// whose cases are much more expensive than the main run's use a smaller count.
+func ScaleChecks(num, den int, f func()) {
+	fl := flag.Lookup("rapid.checks")
+	if fl == nil {
+		f()
+		return
+	}
+	old := fl.Value.String()
+	n, _ := strconv.Atoi(old)
+	m := n * num / den
+	if m < 1 {
+		m = 1
+	}
+	flag.Set("rapid.checks", strconv.Itoa(m))
+	defer flag.Set("rapid.checks", old)
+	f()
 }
